@@ -38,3 +38,4 @@ def run(ctx, R):
     sshash.rule_immenc(ctx, R, F)
     jit.rule_tab_opc(ctx, R, 'rvv', F)
     jitcross.rule_immneg(ctx, R, 'rvv')
+    rv64.rule_branch_forms(ctx, R)   # CBRANCH target: each emitted branch form reaches exactly the distances it is chosen for
